@@ -21,7 +21,18 @@ type funcTransceiver struct {
 		cla, ins, p1, p2, le int
 		data, enc            []byte
 	}
-	n int
+	n    int
+	rbuf []byte
+}
+
+// reuseReceiveBuffer: in every third case the simulated link hands out ONE receive buffer
+// for all responses of a transceiver (as an NFC driver with a fixed buffer does): the bytes
+// of a response are overwritten when the next response arrives. The transceiver interface is
+// silent on ownership, so a conforming terminal must have copied what it still needs.
+var reuseReceiveBuffer bool
+
+func init() {
+	fw.CaseStart = func(k *fw.K) { reuseReceiveBuffer = k.Idx%3 == 1 }
 }
 
 func (t *funcTransceiver) Transceive(cla, ins, p1, p2 int, data []byte, le int, enc []byte) []byte {
@@ -29,7 +40,18 @@ func (t *funcTransceiver) Transceive(cla, ins, p1, p2 int, data []byte, le int, 
 	t.last.cla, t.last.ins, t.last.p1, t.last.p2, t.last.le = cla, ins, p1, p2, le
 	t.last.data = append([]byte{}, data...)
 	t.last.enc = append([]byte{}, enc...)
-	return t.f(append([]byte{}, enc...))
+	resp := t.f(append([]byte{}, enc...))
+	if !reuseReceiveBuffer || resp == nil {
+		return resp
+	}
+	if len(t.rbuf) < len(resp)+32 {
+		t.rbuf = make([]byte, len(resp)+70000)
+	}
+	n := copy(t.rbuf, resp)
+	for i := n; i < n+32; i++ {
+		t.rbuf[i] = 0xA5
+	}
+	return t.rbuf[:n:n]
 }
 
 func libAlg(s symref.Suite) cryptoutils.BlockCipherAlg {
